@@ -133,19 +133,33 @@ def build_containers(flavour='c'):
     return exe
 
 
-def build_lean():
-    """lake build (library + driver).  Returns path of the judge executable."""
+def build_lean(full=False):
+    """lake build (library + driver).  Returns path of the judge executable.
+    First regenerates Yaep/Generated.lean from /repo's current sources (translator)."""
+    import extract_consts
+    try:
+        extract_consts.regenerate()
+    except Exception as e:
+        raise BuildError('tools/extract_consts.py', 'constant extraction failed: %r' % e)
+    exe = os.path.join(LEAN, '.lake', 'build', 'bin', 'yaep_model')
+    if not full:
+        # only the judges (models + drivers): they do not depend on the proofs, so the
+        # correspondence can still look for a failing input when a proof obligation is broken
+        p = subprocess.run(['lake', 'build', 'yaep_model', 'containers_model'], cwd=LEAN, stdout=subprocess.PIPE, stderr=subprocess.STDOUT, text=True)
+        if p.returncode != 0:
+            raise BuildError('lake build yaep_model', p.stdout[-6000:])
+        return exe
     p = subprocess.run(['lake', 'build'], cwd=LEAN, stdout=subprocess.PIPE, stderr=subprocess.STDOUT, text=True)
     if p.returncode != 0:
         raise BuildError('lake build', p.stdout[-6000:])
-    return os.path.join(LEAN, '.lake', 'build', 'bin', 'yaep_model')
+    return exe
 
 
 if __name__ == '__main__':
     what = sys.argv[1] if len(sys.argv) > 1 else 'all'
     try:
         if what in ('all', 'lean'):
-            print(build_lean())
+            print(build_lean(full=True))
         if what in ('all', 'c'):
             print(build_harness('c'))
         if what in ('all', 'cxx'):
